@@ -2,6 +2,7 @@ package pipe
 
 import (
 	"fmt"
+	"go/ast"
 	"go/parser"
 	"go/token"
 	"os"
@@ -75,7 +76,16 @@ func genC07(t *rapid.T) c7Case {
 		// previous outputs of generators that may run
 		for _, g := range c7GenNames[:4] {
 			if rapid.IntRange(0, 3).Draw(t, "prevout") == 0 {
-				p.Other = append(p.Other, modspec.File{Name: fmt.Sprintf("%s.%s.go", c.Base, g), Data: valid("previous_" + g)})
+				data := valid("previous_" + g)
+				if rapid.Bool().Draw(t, "longprev") {
+					// much longer than anything rendered now: the new file must replace it entirely
+					var sb strings.Builder
+					for l := 0; l < 300; l++ {
+						fmt.Fprintf(&sb, "// line %d of a previous, much longer output\n", l)
+					}
+					data = strings.Replace(data, "\n\n", "\n\n"+sb.String(), 1)
+				}
+				p.Other = append(p.Other, modspec.File{Name: fmt.Sprintf("%s.%s.go", c.Base, g), Data: data})
 			}
 		}
 	}
@@ -312,6 +322,27 @@ func checkGenerated(fn, src, gen, pkgName string, calls []script.Call, pkgPath s
 	}
 	if !strings.Contains(src, "gengo:"+gen) {
 		return fmt.Errorf("%s does not name its generator %q", fn, gen)
+	}
+	// nothing but the rendered declarations (no leftovers of a previous output)
+	renderedAll := ""
+	for _, call := range calls {
+		if call.Gen == gen && call.Pkg == pkgPath {
+			renderedAll += call.Rendered
+		}
+	}
+	for _, d := range f.Decls {
+		if gd, ok := d.(*ast.GenDecl); ok && gd.Tok == token.VAR {
+			for _, sp := range gd.Specs {
+				for _, n := range sp.(*ast.ValueSpec).Names {
+					if !strings.Contains(renderedAll, "var "+n.Name+" ") {
+						return fmt.Errorf("%s declares %s, which the generator did not render in this run (leftover of a previous output?)", fn, n.Name)
+					}
+				}
+			}
+		}
+	}
+	if strings.Contains(src, "previous, much longer output") {
+		return fmt.Errorf("%s still holds text of the previous output", fn)
 	}
 	for _, call := range calls {
 		if call.Gen != gen || call.Pkg != pkgPath || call.Rendered == "" {
